@@ -12,8 +12,8 @@ ORACLE_CLASS = {
     'intrinsic-padding': 'c12-intrinsic-padding', 'nulless-furibug': 'c12-nulless-furibug',
 }
 # switches of the generated table: (Coq term, violation class when false, what, repro input of findings/repro).
-# The first four were defects of the unchanged tree, repaired in /repo (known_findings.d/C12.json: fixed); a switch that goes
-# back to false is a regression and a violation.  The last one is still open.
+# All five were defects of the original tree, repaired in /repo (known_findings.d/C12.json: fixed); a switch that goes back
+# to false is a regression and a violation.
 FLAGS = [
     ('all_checked gen_codec', 'c12-narrowing',
      'an integer argument that does not fit its 1- or 2-byte field (or the 16-bit timeline arg0) is stored truncated (`as _` in encode_args): '
@@ -29,7 +29,7 @@ FLAGS = [
      'f13b_padding_param_shift_accepts_invalid.anm.spec'),
     ('cd_nulless_furibug_rejected gen_codec', 'c12-nulless-furibug',
      'a string parameter with both nulless and furibug is accepted; after a furigana line its text reads back with that line\'s masked bytes '
-     'attached (or not at all); theorem C12_nulless_furibug_refuted', None),
+     'attached (or not at all): side condition of C12_parsed_signature_is_covered', None),
 ]
 
 def run_harness(v, args, seed):
